@@ -207,6 +207,17 @@ class ProbeSet:
             s = Subject("", C.cfg_attrs(C.config("table", False)) + [EAttr("repr", r)],
                         [Variant("A", Disc("neg", 1 << 63)), Variant("B"), Variant("C", Disc("lit", (1 << 63) - 1))])
             self.add("C11", f"i64-limits:{r}", "accept", s)
+        # implicit discriminants reaching the i64 limits
+        for r in ("i64", "i128", "isize", "u64", "u128", "usize"):
+            s = Subject("", C.cfg_attrs(C.config("match", False)) + [EAttr("repr", r)],
+                        [Variant("A", Disc("lit", 5)), Variant("B", Disc("lit", (1 << 63) - 2)), Variant("C")])
+            self.add("C11", f"implicit-reaches-i64-max:{r}", "accept", s)
+        for r in ("i64", "i128", "isize"):
+            s = Subject("", C.cfg_attrs(C.config("table", False)) + [EAttr("repr", r)],
+                        [Variant("A", Disc("neg", 1 << 63)), Variant("B"), Variant("C"), Variant("D", Disc("lit", 7))])
+            self.add("C11", f"implicit-from-i64-min:{r}", "accept", s)
+        # the documented maximum number of variants (light feature set: compile time)
+        self.add("C11", "n65534", "accept", simple_enum("", "u16", tuple(range(65534)), [("into", {}), ("MIN", {}), ("MAX", {})], explicit=False))
         # foreign attributes and doc comments everywhere
         s = simple_enum("", "u8", (1, 2, 3), feats)
         s.attrs = [EAttr("foreign", text="/// doc"), EAttr("foreign", text="#[allow(dead_code)]"), EAttr("foreign", text="#[doc(hidden)]")] + s.attrs
@@ -217,7 +228,7 @@ class ProbeSet:
         self.add("C11", "single", "accept", simple_enum("", "i128", (-5,), feats))
         self.add("C11", "n300", "accept", simple_enum("", "u16", tuple(range(300)), C.config("auto", True), explicit=False))
         if self.tier == "thorough":
-            self.add("C11", "n65534", "accept", simple_enum("", "u16", tuple(range(65534)), [("into", {}), ("try_from", {}), ("iter", {})], explicit=False))
+            self.add("C11", "n65534-more-features", "accept", simple_enum("", "u16", tuple(range(65534)), [("into", {}), ("try_from", {}), ("iter", {})], explicit=False))
 
     # ---- C12: outside the domain never compiles
     def fam_c12(self):
@@ -270,8 +281,21 @@ class ProbeSet:
             s = simple_enum("", "u8", (0, 1, 2), feats, explicit=False)
             s.attrs = C.cfg_attrs(feats) + attrs
             self.add("C12", f"repr:{name}", "reject", s)
+        for name, attrs in (("u8+align", [EAttr("repr", "u8"), EAttr("repr-other", text="#[repr(align(2))]")]),
+                            ("align+i16", [EAttr("repr-other", text="#[repr(align(4))]"), EAttr("repr", "i16")]),
+                            ("u8-align-one-attr", [EAttr("repr-other", text="#[repr(u8, align(2))]")]),
+                            ("empty", [EAttr("repr-other", text="#[repr()]")])):
+            s = simple_enum("", "u8", (0, 1, 2), feats, explicit=False)
+            s.attrs = C.cfg_attrs(feats) + attrs
+            self.add("C12", f"repr:{name}", "reject", s)
+            # again with features whose output contains no transmute (so that only the derive can reject)
+            light = [("into", {}), ("as_str", {"mode": "match"}), ("MIN", {}), ("names", {})]
+            s = simple_enum("", "u8", (0, 1, 2), light, explicit=False)
+            s.attrs = C.cfg_attrs(light) + attrs
+            self.add("C12", f"repr-light:{name}", "reject", s)
+        self.add("C12", "n65535", "reject", simple_enum("", "u32", tuple(range(65535)), [("into", {})], explicit=False))
         if self.tier == "thorough":
-            self.add("C12", "n65535", "reject", simple_enum("", "u32", tuple(range(65535)), [("into", {})], explicit=False))
+            self.add("C12", "n65536", "reject", simple_enum("", "u32", tuple(range(65536)), [("into", {})], explicit=False))
             self.add("C12", "n70000", "reject", simple_enum("", "u32", tuple(range(70000)), [("into", {})], explicit=False))
 
     # ---- C13: invalid configuration is rejected
@@ -517,6 +541,25 @@ class ProbeSet:
                      source_override=self._c15_source(s, "", f"pub mod other {{ pub fn f() {{ let _ = super::inner::{call}; }} }}\n"), model_applies=False)
             s = simple_enum("", "u8", GAPLESS, [(f, {"vis": ""})], vis="pub")
             self.add("C15", f"vis-empty-inside-ok:{f}", "accept", s, source_override=self._c15_source(s, f"pub fn inside() {{ let _ = {call}; }}\n", ""))
+        # the iterator structs take the requested visibility too (every iterator mode)
+        for mode, vals in (("range", GAPLESS), ("table", GAPLESS), ("next_and_back", HOLES), ("table_inline", HOLES), ("auto", GAPLESS), ("auto", HOLES)):
+            for f, sname_ in (("iter", "EIter"), ("names", "ENames")):
+                params = {"vis": ""}
+                if f == "iter":
+                    params["mode"] = mode
+                elif mode not in ("range", "next_and_back"):
+                    continue
+                s = simple_enum("", "i8", vals, [(f, params)], vis="pub")
+                self.add("C15", f"vis-empty-hides-struct:{f}:{mode}", "reject", s,
+                         source_override=self._c15_source(s, "", f"pub mod other {{ pub fn f(_: &super::inner::{sname_}) {{}} }}\n"), model_applies=False)
+                s = simple_enum("", "i8", vals, [(f, dict(params, vis="pub(crate)"))], vis="pub")
+                self.add("C15", f"vis-crate-struct-from-root:{f}:{mode}", "accept", s,
+                         source_override=self._c15_source(s, "", "") + f"pub(crate) fn root_user(_: &outer::inner::{sname_}) {{ let _ = outer::inner::E::{f}(); }}\n")
+        # vis = "pub(crate)" reaches the crate root from a doubly nested module
+        for f, call in (("into", "E::V0.into()"), ("MIN", "E::MIN"), ("next", "E::V0.next()"), ("try_from", "E::try_from(0)"), ("as_str", "E::V0.as_str()")):
+            s = simple_enum("", "u8", GAPLESS, [(f, {"vis": "pub(crate)"})], vis="pub")
+            self.add("C15", f"vis-crate-from-root:{f}", "accept", s,
+                     source_override=self._c15_source(s, "", "") + f"pub(crate) fn root_user() {{ let _ = outer::inner::{call}; }}\n")
         # vis = "pub" on a method of a private enum is accepted (the item is as reachable as the enum)
         s = simple_enum("", "u8", GAPLESS, [("into", {"vis": "pub"}), ("next", {"vis": "pub(crate)"})], vis="")
         self.add("C15", "pub-on-private-enum", "accept", s, source_override=self._c15_source(s, "pub fn inside() { let _ = E::V0.into(); let _ = E::V0.next(); }\n", ""))
@@ -528,10 +571,14 @@ class ProbeSet:
 
     # ---- C19: documented signatures
     def fam_c19(self):
-        for sname, r, vals in (("gapless", "i8", GAPLESS), ("holes", "i8", HOLES), ("holes-neg", "i64", HOLES_NEG)):
-            gap = sname == "gapless"
+        shapes = [("gapless", "i8", GAPLESS), ("holes", "i8", HOLES), ("holes-neg", "i64", HOLES_NEG)]
+        shapes += [(f"gapless-{r}", r, GAPLESS) for r in ("u8", "u16", "i16", "u32", "i32", "u64", "i64", "u128", "i128", "usize", "isize")]
+        for sname, r, vals in shapes:
+            gap = sname.startswith("gapless")
+            if sname.startswith("gapless-") and False:
+                continue
             imodes = ["auto", "next_and_back", "table", "table_inline"] + (["range"] if gap else [])
-            for sm in ("auto", "match", "table"):
+            for sm in (("auto", "match", "table") if "-" not in sname or sname == "holes-neg" else ("auto",)):
                 for im in imodes:
                     feats = [("as_str", {"mode": sm}), ("from_str", {"mode": sm}), ("FromStr", {"mode": sm}), ("iter", {"mode": im}),
                              ("names", {}), ("into", {}), ("MAX", {}), ("MIN", {}), ("next", {}), ("next_back", {}), ("try_from", {}),
@@ -583,7 +630,19 @@ fn sigs() {{
                 s.derives = "::core::clone::Clone, ::core::marker::Copy"
                 self.add("C16", f"hostile:{sname}:{kind}", "accept", s, prelude=HOSTILE_PRELUDE)
 
+    # ---- enum identifiers that collide with names the templates use themselves
+    def fam_enum_names(self):
+        for name in ("B", "F", "T", "I", "Item", "Option", "Some", "None", "Result", "Ok", "Err", "Iterator", "Self_", "Error", "Iter", "Names", "R", "N"):
+            for sname, r, vals in (("gapless", "i8", GAPLESS), ("holes", "i8", HOLES)):
+                gap = sname == "gapless"
+                for kind in ("table", "match", "auto", "alt"):
+                    s = simple_enum("", r, vals, C.config(kind, gap))
+                    s.ename = name
+                    s.derives = "::core::clone::Clone, ::core::marker::Copy"
+                    self.add("C16", f"enum-named:{name}:{sname}:{kind}", "accept", s, prelude="use ::enum_tools::EnumTools;\n")
+
     def build(self):
+        self.fam_enum_names()
         self.fam_c10(); self.fam_c11(); self.fam_c12(); self.fam_c13(); self.fam_c14(); self.fam_c15(); self.fam_c19(); self.fam_c16()
         return self
 
@@ -602,7 +661,11 @@ HOSTILE_PRELUDE = ("use ::enum_tools::EnumTools;\n" +
                    "macro_rules! panic { ($($t:tt)*) => { compile_error!(\"user macro panic! captured\") } }\n"
                    "macro_rules! unreachable { ($($t:tt)*) => { compile_error!(\"user macro unreachable! captured\") } }\n"
                    "macro_rules! assert { ($($t:tt)*) => { compile_error!(\"user macro assert! captured\") } }\n"
-                   "macro_rules! write { ($($t:tt)*) => { compile_error!(\"user macro write! captured\") } }\n")
+                   "macro_rules! write { ($($t:tt)*) => { compile_error!(\"user macro write! captured\") } }\n" +
+                   "".join(f"macro_rules! {m} {{ ($($t:tt)*) => {{ compile_error!(\"user macro {m}! captured\") }} }}\n"
+                           for m in ("concat", "stringify", "format_args", "format", "vec", "println", "print", "line", "column", "file",
+                                     "cfg", "env", "option_env", "include_str", "include", "module_path", "debug_assert", "assert_eq",
+                                     "assert_ne", "todo", "unimplemented", "writeln", "concat_idents", "const_format_args", "r#try")))
 
 
 # ------------------------------------------------------------------ running
@@ -651,22 +714,34 @@ def run_probes(ps: ProbeSet, work, etmodel, log=print):
         od = os.path.join(d, "out_" + p.pid)
         os.makedirs(od)
         jobs.append((sp, so, od))
+    # model verdicts: chunks run concurrently with rustc (the association-list model of HashMap is quadratic,
+    # so each very large declaration gets its own process)
+    withm = [p for p in ps.probes if p.subject is not None and p.model_applies]
+    big = [[p] for p in withm if len(p.subject.variants) > 5000]
+    small = [p for p in withm if len(p.subject.variants) <= 5000]
+    chunks = big + [small[i::8] for i in range(8) if small[i::8]]
+
+    def run_chunk(args):
+        k, chunk = args
+        proto = os.path.join(d, f"model_in_{k}.txt")
+        with open(proto, "w") as f:
+            for p in chunk:
+                f.write("\n".join(p.subject.proto_decl()) + "\n")
+        mp = subprocess.run([etmodel], stdin=open(proto), capture_output=True, text=True)
+        return mp.stdout
+
     with ThreadPoolExecutor(max_workers=16) as ex:
+        mf = [ex.submit(run_chunk, (k, c)) for k, c in enumerate(chunks)]
         results = list(ex.map(compile_probe, jobs))
+        mouts = [f.result() for f in mf]
     for _, _, od in jobs:
         subprocess.run(["rm", "-rf", od])
-    # model verdicts
-    proto = os.path.join(d, "model_in.txt")
-    with open(proto, "w") as f:
-        for p in ps.probes:
-            if p.subject is not None and p.model_applies:
-                f.write("\n".join(p.subject.proto_decl()) + "\n")
-    mp = subprocess.run([etmodel], stdin=open(proto), capture_output=True, text=True)
     model = {}
-    for l in mp.stdout.splitlines():
-        t = l.split(" ", 2)
-        if len(t) >= 3 and t[1] == "DECL":
-            model[t[0]] = t[2]
+    for text in mouts:
+        for l in text.splitlines():
+            t = l.split(" ", 2)
+            if len(t) >= 3 and t[1] == "DECL":
+                model[t[0]] = t[2]
     out = []
     from subject import to_json
     for p, (rc, err) in zip(ps.probes, results):
